@@ -49,7 +49,7 @@ def canon(las):
             items = []
             for i in list.__iter__(sec):
                 v = i.value
-                items.append([i.original_mnemonic, i.mnemonic, i.unit, (["n", c16.hx(float(v))] if is_num(v) else ["s", str(v)]), i.descr])
+                items.append([i.original_mnemonic, i.mnemonic, i.unit, (["n", c16.hx(float(v) + 0.0 if float(v) != 0 else 0.0)] if is_num(v) else ["s", str(v)]), i.descr])
             secs.append([k, items])
     data = []
     for c in las.curves:
@@ -116,6 +116,7 @@ def cycle(run, src, cfg, kw, k, tags, pend, nontrivial=True):
     except Exception as e:
         run.dist["first-output-unreadable:" + type(e).__name__] += 1
         return
+    ctx = context(L, cfg)
     run.case(case, nontrivial=nontrivial, tags=list(tags) + ["version=%s" % cfg["version"], "wrap=%s" % cfg["wrap"], "fmt=" + cfg["fmt"]])
     prev_text, prev = x, canon(L1)
     cur = L1
@@ -126,7 +127,7 @@ def cycle(run, src, cfg, kw, k, tags, pend, nontrivial=True):
         try:
             x2 = c16.write(cur, cfg)
         except Exception as e:
-            run.fail("rewrite-raised", icase, {"exception": repr(e)[:300]})
+            run.fail("rewrite-raised", icase, {"exception": repr(e)[:300], "context": ctx})
             return
         if mo is not None:
             pend.append((icase, {"op": "wo.write", "cfg": c16.model_cfg(cfg), "obj": mo, "step_diff": sd}, x2, None, c16.model_obj(cur)))
@@ -135,17 +136,21 @@ def cycle(run, src, cfg, kw, k, tags, pend, nontrivial=True):
         try:
             L2 = lasio.read(x2, **kw)
         except Exception as e:
-            run.fail("reread-raised", icase, {"exception": repr(e)[:300], "text": x2[:1200]})
+            run.fail("reread-raised", icase, {"exception": repr(e)[:300], "text": x2[:1200], "context": ctx})
             return
         c2 = canon(L2)
         d = diff(prev, c2)
         if d:
             hdr = [e for e in d if not e[0].startswith("data")]
             dat = [e for e in d if e[0].startswith("data")]
-            if hdr:
-                run.fail("header-drift", icase, {"diff": hdr, "first_output": prev_text[:1500]})
+            # one failure per kind of drift, so that each is classified on its own
+            groups = {}
+            for e in hdr:
+                groups.setdefault(drift_kind(e), []).append(e)
+            for g in groups.values():
+                run.fail("header-drift", icase, {"diff": g, "first_output": prev_text[:1500], "context": ctx})
             if dat:
-                run.fail("data-drift", icase, {"diff": dat})
+                run.fail("data-drift", icase, {"diff": dat, "context": ctx})
         elif x2 != prev_text:
             run.dist["text-drift-with-equal-content"] += 1
         else:
@@ -238,14 +243,95 @@ def file_text(rel):
 # candidate inputs, run first on every run
 NUMERIC_UNIT = ("~V\nVERS. 2.0 : v\nWRAP. NO : w\n~W\nSTRT.M 1.0 : s\nSTOP.M 2.0 : s\nSTEP.M 1.0 : s\nNULL. -999.25 : n\n"
                 "Q.1000 lbf : numeric unit, empty value\n~C\nDEPT.M : d\nA. : a\n~P\nQ.1000 lbf : numeric unit, empty value\n~A\n1.0 5\n2.0 6\n")
+NUMERIC_INDEX_UNIT = ("~V\nVERS. 2.0 : v\nWRAP. NO : w\n~W\nSTRT.M 1.0 : s\nSTOP.M 2.0 : s\nSTEP.M 1.0 : s\nNULL. -999.25 : n\n"
+                      "~C\nDEPT.1000 : d\nA. : a\n~A\n1.0 5\n2.0 6\n")
+PURE_NUMERIC_UNIT = ("~V\nVERS. 2.0 : v\nWRAP. NO : w\n~W\nSTRT.M 1.0 : s\nSTOP.M 2.0 : s\nSTEP.M 1.0 : s\nNULL. -999.25 : n\n"
+                     "Q.1000 : purely numeric unit, empty value\n~C\nDEPT.M : d\nA. : a\n~A\n1.0 5\n2.0 6\n")
+LEADING_PERIOD_UNIT = ("~V\nVERS. 2.0 : v\nWRAP. NO : w\n~W\nSTRT..1IN 1.0 : s\nSTOP..1IN 2.0 : s\nSTEP..1IN 1.0 : s\nNULL. -999.25 : n\n"
+                       "~C\nDEPT ..1IN : d\nA. : a\n~A\n1.0 5\n2.0 6\n")
 COLON_VALUE = ("~V\nVERS. 2.0 : v\nWRAP. NO : w\n~W\nSTRT.M 1.0 : s\nSTOP.M 2.0 : s\nSTEP.M 1.0 : s\nNULL. -999.25 : n\n"
                "TIME. 12:30 : start time\n~C\nDEPT.M : d\nA. : a\n~A\n1.0 5\n2.0 6\n")
 PLAIN = dict(version=2.0, wrap=None, fmt="%.5f", column_fmt=[], len_numeric_field=None, lhs_spacer=" ", spacer=" ", data_width=79,
              header_width=60, mnemonics_header=False, data_section_header="~ASCII")
 
 
+SSS = ("STRT", "STOP", "STEP")
+
+
+def drift_kind(e):
+    w = e[0].split(":")
+    if w[0] == "count":
+        return "count:" + w[1]
+    if w[0] == "item" and w[1] == "Well" and w[3] == "value" and e[1][1].upper() in SSS:
+        return "sss-value"
+    if w[0] == "item":
+        return "item:" + w[1] + ":" + w[3]
+    return e[0]
+
+
 def classify(failure):
+    """ids of the findings this check reported (each must be listed in known_findings.txt to be accepted)"""
+    d = failure.get("detail") or {}
+    c = failure["case"]
+    ctx = d.get("context") or {}
+    dlm = (ctx.get("dlm") or "SPACE").upper()
+    if dlm not in ("SPACE", "") and failure["clause"] in ("rewrite-raised", "reread-raised", "data-drift", "header-drift"):
+        return "dlm-not-space"
+    if failure["clause"] != "header-drift":
+        return None
+    diffs = d.get("diff") or []
+    if diffs and all(e[0].startswith("count:Version") for e in diffs) and c["cfg"]["wrap"] is not None and ctx.get("wrap_items", 0) >= 2:
+        return "dup-wrap-grows"
+    items = [e for e in diffs if e[0].startswith("item:")]
+    if len(items) != len(diffs) or not items:
+        return None
+    if all(e[0].split(":")[1] == "Well" and e[0].split(":")[3] == "value" and e[1][1].upper() in SSS for e in items) \
+            and ctx.get("index_format_lossy") and c.get("cycle") == 2:
+        return "sss-shift-after-lossy-index-format"
+    # items outside C03's conformance conditions (TextConf), one family at a time: the written line is legitimately re-read with
+    # displaced fields, and the displaced fields move again (or oscillate) in the following cycles
+    fams = [("numeric-unit-swallows-value", lambda p: re.match(r"^\d+($| )", p[2]) is not None),
+            ("unit-leading-period", lambda p: p[2].startswith(".") or p[0].endswith(".")),
+            ("blank-mnemonic-period", lambda p: p[0].strip() == ""),
+            ("colon-in-field", lambda p: ":" in p[3][1] or ":" in p[4] or ":" in p[2])]
+    for kid, test in fams:
+        if all(test(e[1]) or test(e[2]) for e in items):
+            return kid
+    # the input held a blank mnemonic on a line with a further period: its FIRST output was already read differently (unit and
+    # value displaced), and an empty value next to the displaced unit becomes 0 in the second cycle
+    if all(e[0].split(":")[1] in (ctx.get("blank_period") or []) for e in items):
+        return "blank-mnemonic-period"
     return None
+
+
+def context(L, cfg):
+    """facts about the INPUT object the classifier needs"""
+    out = {}
+    try:
+        out["dlm"] = str(L.version["DLM"].value)
+    except Exception:
+        out["dlm"] = None
+    try:
+        tr = L.version.mnemonic_transforms
+        out["wrap_items"] = sum(1 for i in list.__iter__(L.version) if c16.mcmp(tr, c16.useful(i.original_mnemonic), "WRAP"))
+    except Exception:
+        out["wrap_items"] = 0
+    out["blank_period"] = []
+    for k, sec in L.sections.items():
+        if not isinstance(sec, str):
+            for i in list.__iter__(sec):
+                if i.original_mnemonic.strip() == "" and "." in (str(i.unit) + str(i.value) + str(i.descr)):
+                    out["blank_period"].append(k)
+                    break
+    try:
+        cf = dict((int(k), f) for k, f in cfg["column_fmt"]).get(0, cfg["fmt"])
+        idx = [float(x) for x in L.index]
+        probe = [x for x in (idx[:2] + idx[-1:]) if math.isfinite(x)]
+        # the index as written (column format) or as stated by a refresh ('%.5f') is not the index in memory
+        out["index_format_lossy"] = any(float(cf % x) != x or float("%.5f" % x) != float(cf % x) for x in probe)
+    except Exception:
+        out["index_format_lossy"] = False
+    return out
 
 
 def run(run):
@@ -256,6 +342,9 @@ def run(run):
     cycle(run, {"kind": "text", "text": NUMERIC_UNIT}, dict(PLAIN, version=1.2), {}, K, ["candidate:numeric-unit-empty-value"], pend)
     cycle(run, {"kind": "text", "text": COLON_VALUE}, dict(PLAIN, version=1.2), {}, K, ["candidate:colon-value-1.2"], pend)
     cycle(run, {"kind": "text", "text": COLON_VALUE}, PLAIN, {}, K, ["candidate:colon-value-2.0"], pend)
+    cycle(run, {"kind": "text", "text": NUMERIC_INDEX_UNIT}, PLAIN, {}, K, ["finding:numeric-unit-swallows-value"], pend)
+    cycle(run, {"kind": "text", "text": PURE_NUMERIC_UNIT}, PLAIN, {}, K, ["finding:numeric-unit-swallows-value"], pend)
+    cycle(run, {"kind": "text", "text": LEADING_PERIOD_UNIT}, PLAIN, {}, K, ["finding:unit-leading-period"], pend)
     # the example corpus, as it is and mutated
     files = corpus()
     for rel in files:
@@ -271,7 +360,7 @@ def run(run):
                 cycle(run, {"kind": "text", "text": m}, gen_cfg(rng, plain=rng.random() < 0.4), {}, K, ["corpus-mutated"] +
                       ["mut:" + w.split(":")[0] for w in what.split(",")[:2]], pend)
     # generated documents, as they are and mutated
-    for i in range(run.budget(260, 6000)):
+    for i in range(run.budget(600, 6000)):
         r = rng.random()
         if r < 0.4:
             text, kw, tag = c16.gen_text(rng)
